@@ -443,3 +443,38 @@ def c08(run):
                                     "hangs are detected by a 10 s deadline per call, not proved absent",
                                     "the specification's other modules (C01-C07, C09, C12-C14, C16) judge the VALUES these entry points return; this check judges totality and resources"],
                   rule="distinct (entry point, input) calls; non-trivial = non-empty input")
+
+
+# =========================================================================================
+# Growth of the specification beyond the twenty listed properties (not registered in MANIFEST.checks;
+# run with ./check X01 ...).  Evidence is written to evidence/growth-<id>.json.
+def _growth_finish(run, **kw):
+    rc = finish(run, write_evidence=False, **kw)
+    return rc
+
+
+@prop("X01", "Trace_AddressExtras")
+def x01(run):
+    """ConvertSlpToCash / ConvertCashToSlp, AddressPubKey formats and AddressPubKeyHash(), Hash160 / Hash256."""
+    run.build()
+    trace, _ = run.exec("X01")
+    run.validate("Trace_AddressExtras", trace)
+    return _growth_finish(run, assumptions=ADDR_ASSUME)
+
+
+@prop("X02", "Trace_PartialMerkle")
+def x02(run):
+    """A PartialBlock is single-use: ExtractMatches called twice on the same object."""
+    run.build()
+    trace, _ = run.exec("X02")
+    run.validate("Trace_PartialMerkle", trace)
+    return _growth_finish(run, assumptions=MERKLE_ASSUME)
+
+
+@prop("X03", "Trace_AppData")
+def x03(run):
+    """appdata.go: AppDataDir for every operating-system branch, application-name shape and environment."""
+    run.build()
+    trace, _ = run.exec("X03")
+    run.validate("Trace_AppData", trace)
+    return _growth_finish(run, assumptions=["filepath.Join and the current user's home directory are environment facts"])
